@@ -66,7 +66,9 @@ def wfFindings (fs : Findings) (chanPrefix : String) (b : Board) (p : Pos) : Fin
     fs := fs.push (fO (chanPrefix ++ "pinned") s!"impl={showBB (b.pinned &&& mine b)} expected={showBB (specPinnedMine p)}")
   if b.hash != (allSq.foldl (fun h s => match p.board s with
       | some (pc, c) => h ^^^ T.zPiece c pc s | none => h) 0#64) then
-    fs := fs.push (fO (chanPrefix ++ "rawhash") "raw hash field is not the xor of the placement keys")
+    -- representation detail (the field behind `impl Hash`), which no property constrains by itself:
+    -- a model≠implementation finding; the observable `get_hash()` is what the oracle judges (`ghash`)
+    fs := fs.push (fM (chanPrefix ++ "rawhash") "raw hash field is not the xor of the placement keys (the model's invariant Core)")
   return fs
 
 /-! ### POS -/
@@ -208,6 +210,10 @@ def opMAKE (args res : List String) : Findings := Id.run do
         if q.ep.isSome ∧ (legalMoves q).any (isEnPassant q) then
           fs := fs.push (fO "ep" "a legal en-passant capture exists but none is recorded")
       fs := wfFindings fs "wf." b' p'
+      -- the observable hash of the successor is the from-scratch hash of the position the rules give
+      match (field? res "gh").bind bb? with
+      | some gh => if gh != p'.hashOf T then fs := fs.push (fO "ghash" s!"get_hash() of the successor is {showBB gh}, from-scratch hash of that position is {showBB (p'.hashOf T)}")
+      | none => pure ()
       -- closure and monotonicity
       if !Valid p' then fs := fs.push (fO "valid" s!"successor not valid: {showPos p'}")
       if implSane != "1" then fs := fs.push (fO "sane" "is_sane rejects a position reached by legal play")
@@ -237,7 +243,9 @@ def opNULL (args res : List String) : Findings := Id.run do
         if !posEq p' expected then fs := fs.push (fO "null" s!"result {showPos p'} expected {showPos expected}")
         fs := wfFindings fs "wf." b' p'
         -- hash identical to the from-scratch hash of that position
-        if b'.getHash T != expected.hashOf T then fs := fs.push (fO "null" "hash differs from the from-scratch hash")
+        match (field? res "gh").bind bb? with
+        | some gh => if gh != expected.hashOf T then fs := fs.push (fO "null" s!"get_hash() after the null move is {showBB gh}, from-scratch hash of that position is {showBB (expected.hashOf T)}")
+        | none => if b'.getHash T != expected.hashOf T then fs := fs.push (fO "null" "hash differs from the from-scratch hash")
   return fs
 
 end Chess.Driver
